@@ -60,7 +60,7 @@ var smallInts = []int64{0, 1, 2, 3, 5, 7, -1, -2, 10}
 var hostileInts = []int64{0, 1, -1, 2, -2, 1 << 31, -(1 << 31), 1 << 53, 1<<53 + 1, -(1<<53 + 1), math.MaxInt64, math.MaxInt64 - 1, math.MinInt64}
 var floats = []float64{0.5, 1.5, -2.5, 2.0, 0.0, 3.25}
 var hostileFloats = []float64{0.0, math.Copysign(0, -1), 1e308, -1e308, math.Inf(1), math.NaN(), float64(int64(1) << 53), 5e-324}
-var strs = []string{"", "a", "ab", "abc", "1", "é", "aé注", "x y", "a\U0001F600b", "\U00020000\U0010FFFF", "\U00040000x"}
+var strs = []string{"", "a", "ab", "abc", "1", "é", "aé注", "x y", "a\U0001F600b", "\U00020000\U0010FFFF", "\U00040000x", "<b>7</b> & \"q\"", "a<b>c&d"}
 
 func (g *G) IntLit() *gen.Node {
 	if g.pct("hint", g.Hostile) {
